@@ -156,6 +156,15 @@ CHECKS["C12"] = ("kv", "exploration",
     "Two known findings (restore after an aborted restore on pathbadger; trees deeper than the verifier's maxProofDepth) are excluded by construction and probed deterministically.",
     "DESIGN.md 4/C12")
 
+CHECKS["C14"] = ("chain", "exploration",
+    "validity predicate recomputed from the state each election actually saw (captured between ABCI calls) over generated multi-epoch histories (rapid)",
+    "Generated registries and stake distributions (ties, boundary stakes, mixed roles, optional compute runtime) evolve over 3-10 epochs through escrow, reclaim, slashing with freezing, node expiry and "
+    "re-registration. For every epoch-transition block the state right after BeginBlock is captured and, after the commit, every elected validator and committee member is checked to be registered, unexpired, "
+    "unfrozen, carrying the role / runtime version and covered by its entity's stake; limits, stake order, voting power = VotingPowerFromStake and its monotonicity, exact committee sizes and 'validator "
+    "updates turn the previous set into the elected one' (against the consensus-engine model) are verified; a second replica must agree on the AppHash.",
+    "Insecure beacon backend only (VRF eligibility not driven); elections triggered by slashing inside an epoch are executed but only epoch-transition elections are evaluated.",
+    "DESIGN.md 4/C14")
+
 NOT_APPLICABLE = {
 }
 
